@@ -58,6 +58,11 @@ def main(argv=None):
     problems = []      # (kind, name, text, ob or None)
     fn_records = []
     libs = set()
+    declassified = []
+    exempt = []
+    once_info = {}
+    filtered_out = [0]
+    bridges = set()
     assumed = set()
     math_used = set()
     uncontracted = set()
@@ -72,13 +77,17 @@ def main(argv=None):
         contract_src = V.contracts_source
         wanted = pm["functions"]
         have = {V.display_name(f): f for f in V.functions_with_contracts()}
+        variants = {}
+        for f_ in V.prog.funcs.values():
+            for vc in V.variants_for(f_):
+                variants[V.display_name(f_) + "[%s]" % vc.variant] = (f_, vc)
         allfuncs = {V.display_name(f): f for f in V.prog.funcs.values()}
         selected = []
         lemma_names = [w[6:] for w in wanted if w.startswith("lemma:")]
         for pat in wanted:
             if pat.startswith("lemma:"):
                 continue
-            ms = [n for n in have if fnmatch.fnmatchcase(n, pat)]
+            ms = [n for n in have if fnmatch.fnmatchcase(n, pat)] + [n for n in variants if n == pat]
             if not ms:
                 ms2 = [n for n in allfuncs if fnmatch.fnmatchcase(n, pat)]
                 if ms2:
@@ -96,9 +105,16 @@ def main(argv=None):
             if isinstance(n, tuple):
                 rec = V.verify_lemma(n[1])
                 n = rec["name"]
+            elif n in variants:
+                rec = V.verify_function(variants[n][0], contract=variants[n][1])
             else:
                 f = have[n]
                 rec = V.verify_function(f)
+            flt = pm.get("obligation_filter")
+            if flt:
+                keep = [ob for ob in rec["obligations"] if any(re.search(rx, ob.name) for rx in flt)]
+                filtered_out[0] += len(rec["obligations"]) - len(keep)
+                rec["obligations"] = keep
             V.discharge(rec["obligations"])
             for ob in rec["obligations"]:
                 ob.config = cfgname
@@ -111,8 +127,33 @@ def main(argv=None):
             fn_records.append({"function": n, "config": cfgname, "mode": rec["mode"], "body": rec.get("body", "go/ssa"),
                                "partitions": rec["partitions"], "paths": rec["paths"], "obligations": len(rec["obligations"]),
                                "trusted": rec["trusted"], "secs": round(time.time() - t1, 2)})
+        if pm.get("ownership") and cfgname == "default":
+            from . import own
+            oobs, orecs, once = own.analyse(V)
+            for ob in oobs:
+                ob.config = cfgname
+            all_obs.extend(oobs)
+            fn_records.extend(orecs)
+            once_info.update(once)
+        if pm.get("flow_functions") and cfgname == "default":
+            from . import leakcheck
+            names = []
+            for pat in pm["flow_functions"]:
+                names += [n for n in have if fnmatch.fnmatchcase(n, pat) and n not in names]
+            lobs, lrecs, ldecl = leakcheck.run(V, names)
+            for ob in lobs:
+                ob.config = cfgname
+            all_obs.extend(lobs)
+            fn_records.extend(lrecs)
+            declassified.extend(ldecl)
+            for n in names:
+                c_ = V.contract_for(have[n])
+                lk = leakcheck.leak_contract(c_)
+                if lk != "none":
+                    exempt.append("%s: leak %s" % (n, " ".join(t for k_, t in c_.other if k_ == "leak")))
         libs |= V.lib_used
         assumed |= V.assumed
+        bridges |= V.bridges_used
         math_used |= V.math_used
         # functions reachable from the selected ones that have no contract
         for caller, callees in V.calls.items():
@@ -196,6 +237,7 @@ def main(argv=None):
     trusted += ["K3 instance assumed in %s [%s]: %s" % a_ for a_ in sorted(assumed)]
     trusted += ["T-math used by the tier-F evaluator: " + m_ for m_ in sorted(math_used)]
     ncerts = sum(len(getattr(ob, "lemmas", []) or []) for ob in all_obs)
+    trusted += ["LAW bridge (tier-G view of a tier-F primitive, assumed): " + b_ for b_ in sorted(bridges)]
     ev = {
         "property_id": pid, "tier": tier, "seed": seed, "level": pm.get("level", "proof"),
         "coverage": {
@@ -211,6 +253,11 @@ def main(argv=None):
             "slowest_obligation": {"name": slowest[0], "secs": slowest[1]},
             "covers": covers,
             "ring_lemma_certificates_checked": ncerts,
+            "obligation_filter": pm.get("obligation_filter", []),
+            "declassified_sinks": declassified,
+            "once_guarded_structs": once_info,
+            "exempt_functions": exempt,
+            "obligations_of_these_functions_belonging_to_other_properties": filtered_out[0],
             "configs": configs,
             "contracts_from": contract_src,
             "not_discharged": [p[1] for p in problems],
